@@ -152,6 +152,7 @@ pub fn seg_nth(k: usize, a: usize, mut idx: usize) -> (String, Program) {
     }
     body.push(Stmt::Divert(Target::Knot("fin".into())));
     let prog = Program {
+        externals: vec![],
         globals: vec![("x".into(), Expr::Int(0)), ("y".into(), Expr::Int(0)), ("s".into(), Expr::Str("".into()))],
         root: vec![Stmt::Divert(Target::Knot("main".into()))],
         knots: vec![
@@ -236,6 +237,117 @@ pub fn stitch_nth(k: usize, a: usize, idx: usize) -> (String, Program) {
     }));
     main.stitches = vec![("a".into(), a_body), ("b".into(), b_body)];
     (name.replacen("gen", "stitch", 1), prog)
+}
+
+/// slot alphabet of the external-call family (C12): one item per syntactic position of a call,
+/// plus context items that put line ends, glue, choices and Ink functions around it
+pub const EXT_ITEMS: &[&str] = &[
+    "text", "ext-print", "ext-stmt", "ext-assign", "ext-after-line", "ext-cond", "ext-string", "ext-choice-text", "ext-choice-cond", "ext-choice-body", "ext-in-func", "ext-nested", "ext-twice", "ext-str-ret", "ext-tunnel", "ext-thread", "ext-glue-before", "ext-glue-after", "asg", "choice-basic", "tag", "fstmt-text", "ext-block-cond",
+];
+
+fn e1(a: Expr) -> Expr {
+    Expr::Ext("e1".into(), vec![a])
+}
+
+pub fn ext_item(a: usize, i: usize) -> Vec<Stmt> {
+    let plain = |name: &str| item(ITEM_NAMES.iter().position(|n| *n == name).unwrap(), i);
+    let ch = |sticky: bool, conds: Vec<Expr>, start: Vec<Part>, body: Vec<Stmt>| Choice { sticky, label: None, conds, start, only: vec![], end: vec![], fallback: false, body };
+    match EXT_ITEMS[a] {
+        "ext-print" => vec![line(vec![t("Got "), p(e1(x())), t(".")])],
+        "ext-stmt" => vec![Stmt::CallStmt(Expr::Ext("ev_void".into(), vec![x()])), Stmt::line("After stmt.")],
+        "ext-assign" => vec![Stmt::set("y", Expr::Ext("e2".into(), vec![x(), Expr::Int(3)])), line(vec![t("Y "), p(Expr::var("y")), t(".")])],
+        "ext-after-line" => vec![Stmt::line(&format!("Before {i}.")), Stmt::set("x", e1(x())), line(vec![t("After "), p(x()), t(".")])],
+        "ext-cond" => vec![line(vec![Part::Cond(Expr::bin(e1(x()), BinOp::Gt, Expr::Int(105)), vec![t("high")], vec![t("low")]), t(" cond.")])],
+        "ext-string" => vec![Stmt::set("s", Expr::Interp(vec![t("v"), p(e1(x()))])), line(vec![t("S "), p(Expr::var("s")), t(".")])],
+        "ext-choice-text" => vec![Stmt::Weave(Weave {
+            choices: vec![ch(true, vec![], vec![t("pick "), p(e1(x()))], vec![Stmt::line("Picked.")]), ch(true, vec![], vec![t("other")], vec![xplus(1)])],
+            gather: Some(Gather { label: None, parts: vec![t("G "), p(x()), t(".")] }),
+        })],
+        "ext-choice-cond" => vec![Stmt::Weave(Weave {
+            choices: vec![ch(true, vec![Expr::bin(e1(x()), BinOp::Gt, Expr::Int(0))], vec![t("cpick")], vec![Stmt::line("Cpicked.")]), ch(false, vec![Expr::bin(e1(Expr::Int(1)), BinOp::Lt, Expr::Int(0))], vec![t("never")], vec![])],
+            gather: Some(Gather { label: None, parts: vec![t("CG.")] }),
+        })],
+        "ext-choice-body" => vec![Stmt::Weave(Weave {
+            choices: vec![ch(true, vec![], vec![t("body")], vec![Stmt::set("x", e1(x())), line(vec![t("Body "), p(x()), t(".")])]), ch(true, vec![], vec![t("skip")], vec![])],
+            gather: Some(Gather { label: None, parts: vec![t("BG "), p(e1(Expr::Int(2))), t(".")] }),
+        })],
+        "ext-in-func" => vec![line(vec![t("F "), p(Expr::Call("fwrap".into(), vec![x()])), t(".")])],
+        "ext-nested" => vec![line(vec![t("N "), p(Expr::Ext("e2".into(), vec![e1(x()), Expr::Int(2)])), t(".")])],
+        "ext-twice" => vec![line(vec![t("A "), p(e1(Expr::Int(1))), t(" B "), p(e1(Expr::Int(2))), t(".")])],
+        "ext-str-ret" => vec![line(vec![t("Str "), p(Expr::Ext("es_str".into(), vec![x()])), t(".")])],
+        "ext-tunnel" => vec![Stmt::Tunnel("etun".into())],
+        "ext-thread" => vec![
+            Stmt::Thread("ethr".into()),
+            Stmt::Weave(Weave { choices: vec![ch(true, vec![], vec![t("own")], vec![Stmt::line("Own.")])], gather: Some(Gather { label: None, parts: vec![t("Joined.")] }) }),
+        ],
+        "ext-glue-before" => vec![line(vec![t("Open "), Part::Glue]), line(vec![p(e1(x())), t(" closed.")])],
+        "ext-glue-after" => vec![line(vec![t("Val "), p(e1(x()))]), line(vec![Part::Glue, t(" joined.")])],
+        "ext-block-cond" => vec![Stmt::If { branches: vec![(Expr::bin(e1(x()), BinOp::Gt, Expr::Int(0)), vec![Stmt::line("Yes branch."), Stmt::set("x", e1(Expr::Int(4)))])], else_: Some(vec![Stmt::line("No branch.")]) }],
+        other => plain(other),
+    }
+}
+
+pub fn ext_uses_glue(a: usize) -> bool {
+    matches!(EXT_ITEMS[a], "ext-glue-before" | "ext-glue-after")
+}
+
+/// external-call family: k slots over EXT_ITEMS; `fallback_fns` adds an Ink function of the same
+/// name for every EXTERNAL. Returns (name, program, uses glue)
+pub fn ext_nth(k: usize, mut idx: usize, fallback_fns: bool) -> (String, Program, bool) {
+    let a = EXT_ITEMS.len();
+    let mut body = vec![];
+    let mut name = String::from("ext");
+    let mut glue = false;
+    for slot in 0..k {
+        let ai = idx % a;
+        idx /= a;
+        name.push('-');
+        name.push_str(EXT_ITEMS[ai]);
+        glue |= ext_uses_glue(ai);
+        body.extend(ext_item(ai, slot));
+    }
+    body.push(Stmt::Divert(Target::Knot("fin".into())));
+    let f = |name: &str, params: &[&str], body: Vec<Stmt>| Knot { name: name.into(), params: params.iter().map(|s| s.to_string()).collect(), is_function: true, body, stitches: vec![] };
+    let v = |n: &str| Expr::var(n);
+    let mut knots = vec![
+        Knot { name: "main".into(), params: vec![], is_function: false, body, stitches: vec![] },
+        Knot {
+            name: "fin".into(),
+            params: vec![],
+            is_function: false,
+            body: vec![line(vec![t("Final "), p(x()), t(" "), p(v("y")), t(" "), p(v("s")), t(" "), p(e1(Expr::Int(9))), t(".")]), Stmt::Divert(Target::End)],
+            stitches: vec![],
+        },
+        Knot { name: "etun".into(), params: vec![], is_function: false, body: vec![line(vec![t("In etun "), p(e1(x())), t(".")]), Stmt::set("x", Expr::bin(x(), BinOp::Add, Expr::Int(1))), Stmt::TunnelReturn], stitches: vec![] },
+        Knot {
+            name: "ethr".into(),
+            params: vec![],
+            is_function: false,
+            body: vec![
+                line(vec![t("Thread "), p(e1(x())), t(".")]),
+                Stmt::Weave(Weave {
+                    choices: vec![Choice { sticky: true, label: None, conds: vec![], start: vec![t("tchoice")], only: vec![], end: vec![], fallback: false, body: vec![line(vec![t("Tchosen "), p(e1(Expr::Int(3))), t(".")]), Stmt::Divert(Target::Knot("fin".into()))] }],
+                    gather: None,
+                }),
+            ],
+            stitches: vec![],
+        },
+        f("fwrap", &["w"], vec![Stmt::Return(Some(Expr::bin(e1(v("w")), BinOp::Add, Expr::Int(1))))]),
+        f("ftalk", &[], vec![Stmt::line("Talk one."), Stmt::set("y", Expr::bin(v("y"), BinOp::Add, Expr::Int(1))), line(vec![t("Talk two "), p(v("y")), t(".")])]),
+    ];
+    if fallback_fns {
+        knots.push(f("e1", &["a"], vec![Stmt::Return(Some(Expr::bin(Expr::Int(1000), BinOp::Add, v("a"))))]));
+        knots.push(f("e2", &["a", "b"], vec![Stmt::Return(Some(Expr::bin(Expr::bin(Expr::Int(2000), BinOp::Add, v("a")), BinOp::Add, v("b"))))]));
+        knots.push(f("ev_void", &["a"], vec![Stmt::set("y", Expr::bin(v("y"), BinOp::Add, v("a")))]));
+        knots.push(f("es_str", &["a"], vec![Stmt::Return(Some(Expr::bin(Expr::Str("fb".into()), BinOp::Add, v("a"))))]));
+    }
+    let prog = Program {
+        externals: vec![("e1".into(), vec!["a".into()]), ("e2".into(), vec!["a".into(), "b".into()]), ("ev_void".into(), vec!["a".into()]), ("es_str".into(), vec!["a".into()])],
+        globals: vec![("x".into(), Expr::Int(0)), ("y".into(), Expr::Int(0)), ("s".into(), Expr::Str("".into()))],
+        root: vec![Stmt::Divert(Target::Knot("main".into()))],
+        knots,
+    };
+    (name, prog, glue)
 }
 
 /// hand-transcribed corpus stories used to calibrate refint against the reference toolchain:
